@@ -69,93 +69,7 @@ func kindCoverage(c *Ctx, r *RuleResult) {
 		return
 	}
 	scope := formatterScope(p)
-	kindOfCond := func(cd Cond) (k string, eq bool, ok bool) {
-		bo, isB := cd.V.(*ssa.BinOp)
-		if !isB || (bo.Op != token.EQL && bo.Op != token.NEQ) {
-			return "", false, false
-		}
-		if loadOfField(bo.X, "Definition", "Kind") {
-			k, ok = constString(bo.Y)
-		} else if loadOfField(bo.Y, "Definition", "Kind") {
-			k, ok = constString(bo.X)
-		}
-		if !ok {
-			return "", false, false
-		}
-		eq = (bo.Op == token.EQL) == cd.True
-		return k, eq, true
-	}
-	// feasible: nil = every kind
-	var feasible func(b *ssa.BasicBlock, depth int) map[string]bool
-	feasible = func(b *ssa.BasicBlock, depth int) map[string]bool {
-		var only map[string]bool
-		excluded := map[string]bool{}
-		if ks := kindsAt(b); len(ks) > 0 {
-			only = map[string]bool{}
-			for _, k := range ks {
-				only[k] = true
-			}
-		}
-		for _, cd := range condsAt(b) {
-			k, eq, ok := kindOfCond(cd)
-			if !ok {
-				continue
-			}
-			if eq {
-				if only == nil {
-					only = map[string]bool{k: true}
-				}
-			} else {
-				excluded[k] = true
-			}
-		}
-		fn := b.Parent()
-		var entry map[string]bool // nil = all
-		if depth < 3 {
-			hasDef := false
-			for _, prm := range fn.Params {
-				if pt, ok := prm.Type().(*types.Pointer); ok && namedOf(pt.Elem()) == defT {
-					hasDef = true
-				}
-			}
-			sites := callSitesOf(p, fn)
-			if hasDef && len(sites) > 0 && !(fn.Object() != nil && fn.Object().Exported() && fn.Signature.Recv() == nil) {
-				entry = map[string]bool{}
-				for _, cs := range sites {
-					if cs.Parent() == fn {
-						continue
-					}
-					fe := feasible(cs.Block(), depth+1)
-					if fe == nil {
-						entry = nil
-						break
-					}
-					for k := range fe {
-						entry[k] = true
-					}
-				}
-			}
-		}
-		if only == nil && len(excluded) == 0 {
-			return entry
-		}
-		out := map[string]bool{}
-		if only != nil {
-			for k := range only {
-				if !excluded[k] && (entry == nil || entry[k]) {
-					out[k] = true
-				}
-			}
-			return out
-		}
-		// exclusions only: need the universe
-		for _, k := range definitionKinds(p) {
-			if !excluded[k] && (entry == nil || entry[k]) {
-				out[k] = true
-			}
-		}
-		return out
-	}
+	feasible := func(b *ssa.BasicBlock, depth int) map[string]bool { return kindsFeasibleAt(p, defT, b, depth) }
 	type rd struct {
 		in ssa.Instruction
 		fe map[string]bool
@@ -265,4 +179,361 @@ func definitionKinds(p *Program) []string {
 	sort.Strings(out)
 	defKindMemo[p] = out
 	return out
+}
+
+// kindCond: cd is a test of a Definition's kind — `def.Kind == K` / `!=`, or a call of a predicate method of Definition
+// whose result is a fixed function of the kind (IsCompositeType ...). Returns the kinds for which the condition holds.
+func kindCond(p *Program, cd Cond) (holds map[string]bool, ok bool) {
+	all := definitionKinds(p)
+	if bo, isB := cd.V.(*ssa.BinOp); isB && (bo.Op == token.EQL || bo.Op == token.NEQ) {
+		var k string
+		var okk bool
+		if loadOfField(bo.X, "Definition", "Kind") {
+			k, okk = constString(bo.Y)
+		} else if loadOfField(bo.Y, "Definition", "Kind") {
+			k, okk = constString(bo.X)
+		}
+		if !okk {
+			return nil, false
+		}
+		eq := (bo.Op == token.EQL) == cd.True
+		holds = map[string]bool{}
+		for _, x := range all {
+			if (x == k) == eq {
+				holds[x] = true
+			}
+		}
+		return holds, true
+	}
+	if call, isC := cd.V.(*ssa.Call); isC {
+		if g := call.Call.StaticCallee(); g != nil {
+			if set, okp := kindPredicate(p, g); okp {
+				holds = map[string]bool{}
+				for _, x := range all {
+					if set[x] == cd.True {
+						holds[x] = true
+					}
+				}
+				return holds, true
+			}
+		}
+	}
+	return nil, false
+}
+
+var kindPredMemo = map[*ssa.Function]map[string]bool{}
+var kindPredBad = map[*ssa.Function]bool{}
+
+// kindPredicate: g is a method of *Definition with one bool result whose value is decided by comparisons of the
+// receiver's Kind with constants only; evaluated for each kind constant by walking the control-flow graph.
+func kindPredicate(p *Program, g *ssa.Function) (map[string]bool, bool) {
+	if m, ok := kindPredMemo[g]; ok {
+		return m, true
+	}
+	if kindPredBad[g] {
+		return nil, false
+	}
+	fail := func() (map[string]bool, bool) { kindPredBad[g] = true; return nil, false }
+	if g.Signature.Recv() == nil || len(g.Params) != 1 || g.Signature.Results().Len() != 1 || len(g.Blocks) == 0 {
+		return fail()
+	}
+	if n := namedOf(derefType(g.Params[0].Type())); n == nil || n.Obj().Name() != "Definition" {
+		return fail()
+	}
+	if b, ok := g.Signature.Results().At(0).Type().Underlying().(*types.Basic); !ok || b.Kind() != types.Bool {
+		return fail()
+	}
+	out := map[string]bool{}
+	for _, k := range definitionKinds(p) {
+		var evalBool func(v ssa.Value, from *ssa.BasicBlock, at *ssa.BasicBlock) (bool, bool)
+		evalBool = func(v ssa.Value, from, at *ssa.BasicBlock) (bool, bool) {
+			switch x := v.(type) {
+			case *ssa.Const:
+				if x.Value == nil || x.Value.Kind() != constant.Bool {
+					return false, false
+				}
+				return constant.BoolVal(x.Value), true
+			case *ssa.BinOp:
+				if x.Op != token.EQL && x.Op != token.NEQ {
+					return false, false
+				}
+				var c string
+				var ok bool
+				if loadOfField(x.X, "Definition", "Kind") {
+					c, ok = constString(x.Y)
+				} else if loadOfField(x.Y, "Definition", "Kind") {
+					c, ok = constString(x.X)
+				}
+				if !ok {
+					return false, false
+				}
+				return (c == k) == (x.Op == token.EQL), true
+			case *ssa.UnOp:
+				if x.Op == token.NOT {
+					r, ok := evalBool(x.X, from, at)
+					return !r, ok
+				}
+			case *ssa.Phi:
+				if from == nil || x.Block() != at {
+					return false, false
+				}
+				for i, pr := range at.Preds {
+					if pr == from {
+						return evalBool(x.Edges[i], nil, nil)
+					}
+				}
+			}
+			return false, false
+		}
+		b := g.Blocks[0]
+		var from *ssa.BasicBlock
+		steps := 0
+		for {
+			steps++
+			if steps > 200 {
+				return fail()
+			}
+			// only loads of the receiver's Kind, comparisons, phis and control flow are allowed
+			for _, in := range b.Instrs {
+				switch x := in.(type) {
+				case *ssa.FieldAddr, *ssa.UnOp, *ssa.BinOp, *ssa.Phi, *ssa.If, *ssa.Jump, *ssa.Return, *ssa.DebugRef:
+					_ = x
+				default:
+					return fail()
+				}
+			}
+			switch t := b.Instrs[len(b.Instrs)-1].(type) {
+			case *ssa.Return:
+				r, ok := evalBool(t.Results[0], from, b)
+				if !ok {
+					return fail()
+				}
+				out[k] = r
+			case *ssa.Jump:
+				from, b = b, b.Succs[0]
+				continue
+			case *ssa.If:
+				r, ok := evalBool(t.Cond, from, b)
+				if !ok {
+					return fail()
+				}
+				if r {
+					from, b = b, b.Succs[0]
+				} else {
+					from, b = b, b.Succs[1]
+				}
+				continue
+			default:
+				return fail()
+			}
+			break
+		}
+	}
+	kindPredMemo[g] = out
+	return out, true
+}
+
+func derefType(t types.Type) types.Type {
+	if pt, ok := t.Underlying().(*types.Pointer); ok {
+		return pt.Elem()
+	}
+	return t
+}
+
+// kindsFeasibleAt: the Definition kinds under which block b can be reached, as far as kind tests that dominate it (and
+// the call sites of the unexported function it lies in, three levels up) say; nil = every kind.
+func kindsFeasibleAt(p *Program, defT *types.Named, b *ssa.BasicBlock, depth int) map[string]bool {
+	var only map[string]bool
+	restrict := func(set map[string]bool) {
+		if only == nil {
+			only = map[string]bool{}
+			for k := range set {
+				only[k] = true
+			}
+			return
+		}
+		for k := range only {
+			if !set[k] {
+				delete(only, k)
+			}
+		}
+	}
+	if ks := kindsAt(b); len(ks) > 0 {
+		set := map[string]bool{}
+		for _, k := range ks {
+			set[k] = true
+		}
+		restrict(set)
+	}
+	for _, cd := range condsAt(b) {
+		if holds, ok := kindCond(p, cd); ok {
+			// a positive equality test is already in kindsAt (which also knows the shared bodies of multi-value cases)
+			if bo, isB := cd.V.(*ssa.BinOp); isB && (bo.Op == token.EQL) == cd.True && len(kindsAt(b)) > 0 {
+				continue
+			}
+			restrict(holds)
+		}
+	}
+	fn := b.Parent()
+	var entry map[string]bool // nil = all
+	if depth < 3 {
+		hasDef := false
+		for _, prm := range fn.Params {
+			if pt, ok := prm.Type().(*types.Pointer); ok && namedOf(pt.Elem()) == defT {
+				hasDef = true
+			}
+		}
+		sites := callSitesOf(p, fn)
+		if hasDef && len(sites) > 0 && !(fn.Object() != nil && fn.Object().Exported() && fn.Signature.Recv() == nil) {
+			entry = map[string]bool{}
+			for _, cs := range sites {
+				if cs.Parent() == fn {
+					continue
+				}
+				fe := kindsFeasibleAt(p, defT, cs.Block(), depth+1)
+				if fe == nil {
+					entry = nil
+					break
+				}
+				for k := range fe {
+					entry[k] = true
+				}
+			}
+		}
+	}
+	if only == nil {
+		return entry
+	}
+	if entry != nil {
+		for k := range only {
+			if !entry[k] {
+				delete(only, k)
+			}
+		}
+	}
+	return only
+}
+
+// extensionMergeCoverage (C17.R7 / C07.R12): the loader folds an extension into its definition list by list
+// (`def.F = append(def.F, ext.F...)`). For every list field F of Definition and every kind under which a parse function
+// stores F, some such merge of F is feasible under that kind: a merge made only `if def.IsCompositeType()` drops the
+// fields of every `extend input`.
+func extensionMergeCoverage(c *Ctx, r *RuleResult) {
+	p := c.P
+	defT := p.LookupType("ast", "Definition")
+	if defT == nil {
+		r.AnchorLost("ast.Definition")
+		return
+	}
+	stored := parserStoredKinds(p, defT)
+	type mg struct {
+		in ssa.Instruction
+		fe map[string]bool
+	}
+	merges := map[string][]mg{}
+	for _, fn := range p.FuncsIn("validator") {
+		allInstrs(fn, func(in ssa.Instruction) {
+			st, ok := in.(*ssa.Store)
+			if !ok {
+				return
+			}
+			fa, ok := st.Addr.(*ssa.FieldAddr)
+			if !ok {
+				return
+			}
+			n, f, _, _ := fieldOf(fa)
+			if n != defT {
+				return
+			}
+			call, ok := st.Val.(*ssa.Call)
+			if !ok {
+				return
+			}
+			if b, ok := call.Call.Value.(*ssa.Builtin); !ok || b.Name() != "append" || len(call.Call.Args) != 2 {
+				return
+			}
+			if !loadOfField(call.Call.Args[0], "Definition", f) || !loadOfField(call.Call.Args[1], "Definition", f) {
+				return
+			}
+			merges[f] = append(merges[f], mg{in, kindsFeasibleAt(p, defT, in.Block(), 0)})
+		})
+	}
+	if len(merges) == 0 {
+		r.AnchorLost("the loader's `def.F = append(def.F, ext.F...)` merges")
+		return
+	}
+	var fields []string
+	for f := range merges {
+		fields = append(fields, f)
+	}
+	sort.Strings(fields)
+	for _, f := range fields {
+		var ks []string
+		for k := range stored[f] {
+			ks = append(ks, k)
+		}
+		sort.Strings(ks)
+		for _, k := range ks {
+			ok := false
+			for _, m := range merges[f] {
+				if m.fe == nil || m.fe[k] {
+					ok = true
+				}
+			}
+			if ok {
+				r.OK(fmt.Sprintf("Definition.%s of a %s extension is merged", f, k), "")
+				continue
+			}
+			m := merges[f][0]
+			var fk []string
+			for kk := range m.fe {
+				fk = append(fk, kk)
+			}
+			sort.Strings(fk)
+			r.Fail(m.in.Pos(), p.FuncName(m.in.Parent()), fmt.Sprintf("Definition.%s of a %s extension is not merged", f, k), fmt.Sprintf("the parser stores Definition.%s on %s nodes (%s), but the loader appends the extension's %s to the definition only under kinds {%s}: what an `extend` of a %s declares there is silently dropped from the loaded schema", f, k, p.Pos(stored[f][k]), f, strings.Join(fk, ","), k))
+		}
+	}
+}
+
+// parserStoredKinds: field of Definition -> kind constant -> a place where a parse function stores that field on a
+// node whose Kind it sets to that constant.
+func parserStoredKinds(p *Program, defT *types.Named) map[string]map[string]token.Pos {
+	st := defT.Underlying().(*types.Struct)
+	stored := map[string]map[string]token.Pos{}
+	for _, fn := range p.FuncsIn("parser") {
+		kinds := map[ssa.Value]string{}
+		for _, s := range storesToField([]*ssa.Function{fn}, defT, "Kind") {
+			if k, ok := constString(s.store.Val); ok {
+				if old, had := kinds[s.addr.X]; had && old != k {
+					kinds[s.addr.X] = "?"
+				} else {
+					kinds[s.addr.X] = k
+				}
+			} else {
+				kinds[s.addr.X] = "?"
+			}
+		}
+		if len(kinds) == 0 {
+			continue
+		}
+		for i := 0; i < st.NumFields(); i++ {
+			f := st.Field(i).Name()
+			if f == "Kind" {
+				continue
+			}
+			for _, s := range storesToField([]*ssa.Function{fn}, defT, f) {
+				k := kinds[s.addr.X]
+				if k == "" || k == "?" {
+					continue
+				}
+				if stored[f] == nil {
+					stored[f] = map[string]token.Pos{}
+				}
+				if _, had := stored[f][k]; !had {
+					stored[f][k] = s.store.Pos()
+				}
+			}
+		}
+	}
+	return stored
 }
